@@ -184,13 +184,37 @@ def nontrivial(c, o):
 
 RULE = ("systematic: writes `target = src` for every target in 16 struct-field paths (one and two levels, by value and by pointer) x 5 source classes x source values (boundaries of every width); pointer-injected scalars of all 14 kinds x source classes; "
         "maps with string / int64 / variable keys, slices and arrays with literal / variable indexes, injected directly and by pointer, over 8 (thorough 14) element kinds; key coercion and out-of-range / negative / string indexes; container fields of a struct; "
-        "calls of every catalogue function with every argument class, arity faults, missing functions, panicking functions, methods and three-level calls; shadowing of injected names; reads of missing names / fields; random programs; every third text executed a second time after fresh objects were re-injected under the same names into the same data context; "
+        "calls of every catalogue function with every argument class, arity faults, missing functions, panicking functions, methods and three-level calls; shadowing of injected names; reads of missing names / fields; random programs; three driver-stated scenarios in which the host injects an object / a function under a name the rule has already bound as a local (method, three-level and function calls must then reach the injected one); every third text executed a second time after fresh objects were re-injected under the same names into the same data context; "
         "compared: returned value, recorded calls with the dynamic types of the received arguments, and the WHOLE host store afterwards (so untouched data is checked too); distinct non-trivial = distinct (target path, source kind, container kinds) whose run succeeded")
+
+
+def publish_scenarios():
+    """An injected name always refers to the injected object — also when the rule bound a LOCAL of that name first and the host
+    injected the object afterwards, while the rule was running (Publish calls DataContext.Add).  From then on calls a.m(..),
+    a.b.m(..) and a(..) reach the injected object (Counter 2 / 22, HostF), as reads and writes of a.N do.  Stated here: the Coq
+    host model has no function that injects."""
+    fcall = lambda n, args=(): scall(call("func", n, list(args)))
+    out = []
+    b1 = block([assign(("var", "acc"), "=", ("math", matom(acall(call("func", "NewC", []))))), scall(call("method", "acc.Add", [("const", kint(1))])), fcall("Publish"),
+                scall(call("method", "acc.Add", [("const", kint(10))])), scall(call("three", "acc.In.Add", [("const", kint(20))]))], ("expr", emath(mvar("acc.N"))))
+    out.append(("method-and-three-level-call-after-the-host-injected-the-name", b1, [inj_func("NewC"), inj_func("Publish")],
+                {"class": "ok", "seq": [["NewC"], ["CAdd", "1", "1"], ["Publish"], ["CAdd", "2", "10"], ["CAdd", "22", "20"]]}))
+    b2 = block([assign(("var", "fn"), "=", ("math", matom(acall(call("func", "NewF", []))))), fcall("Publish"), fcall("fn", [("const", kint(5))])])
+    out.append(("function-call-after-the-host-injected-the-name", b2, [inj_func("NewF"), inj_func("Publish")], {"class": "ok", "seq": [["NewF"], ["Publish"], ["HostF", "5"]]}))
+    b3 = block([assign(("var", "acc"), "=", ("math", matom(acall(call("func", "NewC", []))))), scall(call("method", "acc.Add", [("const", kint(1))])), scall(call("three", "acc.In.Add", [("const", kint(2))]))])
+    out.append(("calls-on-a-local-object", b3, [inj_func("NewC")], {"class": "ok", "seq": [["NewC"], ["CAdd", "1", "1"], ["CAdd", "11", "2"]]}))
+    return out
+
+
+def stated(run):
+    bad = stated_scenarios(run, PID, publish_scenarios(), "a name that is injected refers to the injected object in reads, writes AND calls, even if a local of that name was bound before")
+    return bad == 0, {"stated_scenarios": len(publish_scenarios())}
 
 
 def main(run):
     return lang_check(run, PID, make_cases, RULE,
-                      ["float -> integer and float64 -> float32 conversions are compared only for representable values (the property's guard); string targets receiving non-strings are outside the model"], nontrivial)
+                      ["float -> integer and float64 -> float32 conversions are compared only for representable values (the property's guard); string targets receiving non-strings are outside the model"], nontrivial,
+                      extra=("stated_C03: calls through a name the host injects while the rule runs reach the injected object (driver-stated expectation on the recorded calls)", stated))
 
 
 def replay(run, data):
